@@ -193,7 +193,9 @@ func (g *gen) block(ctx genCtx, maxStmts int) []Stmt {
 		case k < 34 || d >= g.cfg.MaxDepth && k < 80:
 			out = append(out, g.cmd())
 		case k < 42:
-			out = append(out, Stmt{K: "label", Name: g.newLabel(), G: r.Chance(1, 6)})
+			lab := Stmt{K: "label", Name: g.newLabel(), G: r.Chance(1, 6)}
+			lab.LMod = !lab.G && r.Chance(1, 6)
+			out = append(out, lab)
 		case k < 50 && ctx.inBreak:
 			out = append(out, Stmt{K: "break"})
 		case k < 55 && ctx.inLoop && ctx.brace && last:
